@@ -191,9 +191,10 @@ static Boolean ExpandDefines_NErl(char inp) {
 
 #define t_toupper(ch) ((CaseSensitive) ? (ch) : (as_toupper(ch)))
 
-void ExpandDefines(char* Line) {
+void ExpandDefines(as_dynstr_t* p_line) {
     PDefinement Lauf;
     sint        LPos, Diff, p, p2, p3, z, z2, FromLen, ToLen, LineLen;
+    char*       Line = p_line->p_str;
 
     Lauf = FirstDefine;
     while (Lauf) {
@@ -227,6 +228,19 @@ void ExpandDefines(char* Line) {
                     if (((p2 == 0) || (!ExpandDefines_NErl(Line[p2 - 1])))
                         && ((p2 + FromLen == p)
                             || (!ExpandDefines_NErl(Line[p2 + FromLen])))) {
+                        if (Diff > 0) {
+                            /* the line grows: make room first */
+
+                            size_t Needed = strlen(Line) + Diff + 1;
+
+                            if (Needed > p_line->capacity) {
+                                if (as_dynstr_realloc(
+                                            p_line, as_dynstr_roundup_len(Needed))) {
+                                    return;
+                                }
+                                Line = p_line->p_str;
+                            }
+                        }
                         if (Diff != 0) {
                             memmove(Line + p2 + ToLen, Line + p2 + FromLen,
                                     strlen(Line) - p2 - FromLen + 1);
